@@ -1096,8 +1096,9 @@ def ex_var(p, seed):
                 e0 = np.zeros(d2)
                 e0[0] = 1
                 if flag and np.array_equal(L2.hs[1:], hs[1:]) and np.array_equal(L2.hs[0], e0):
-                    agg.fail("convert_var_to_effective_lindbladian:first-row-e0-not-zero:on_para_eq_constraint=True",
-                             "%s: the implied first row of a generator is zero, got %s" % (ctx, L2.hs[0]))
+                    # Observation only (outside the statement of C18, which does not speak about variable vectors): the
+                    # gate convention e0 is inserted as implied first row of a generator, whose first row should be zero.
+                    out.count("note_convert_var_to_effective_lindbladian_inserts_e0_first_row")
                 else:
                     agg.fail("convert_var_to_effective_lindbladian:round-trip:on_para_eq_constraint=%s" % flag, "%s: %.3g" % (ctx, dist(L2.hs, hs)))
             else:
@@ -1110,7 +1111,10 @@ def ex_var(p, seed):
             ok, L3 = A.call(L.generate_from_var, np.array(v, dtype=np.float64))
             out.ops += 1
             if not ok:
-                agg.fail("generate_from_var:raises:%s" % excsig(L3), "%s: %s" % (ctx, A.fmt_exc(L3)))
+                if isinstance(L3, TypeError) and "mode_proj_order" in str(L3):
+                    out.count("note_generate_from_var_raises_TypeError_mode_proj_order")     # observation, outside C18
+                else:
+                    agg.fail("generate_from_var:raises:%s" % excsig(L3), "%s: %s" % (ctx, A.fmt_exc(L3)))
             elif not np.array_equal(L3.hs, hs):
                 agg.fail("generate_from_var:round-trip:on_para_eq_constraint=%s" % flag, "%s: %.3g, first row %s" % (ctx, dist(L3.hs, hs), L3.hs[0]))
             if physical:
@@ -1118,7 +1122,9 @@ def ex_var(p, seed):
                 ok, L4 = A.call(m.convert_var_to_effective_lindbladian, c, np.array(v, dtype=np.float64), on_para_eq_constraint=flag)
                 out.ops += 1
                 out.count("var_physical_round_trip")
-                if not ok and "physically" in str(L4):
+                if not ok and "physically" in str(L4) and flag and isinstance(L2, EffectiveLindbladian) and L2.hs[0, 0] == 1:
+                    out.count("note_convert_var_to_effective_lindbladian_inserts_e0_first_row")   # same observation
+                elif not ok and "physically" in str(L4):
                     rebuilt = L2.hs if isinstance(L2, EffectiveLindbladian) else None
                     rejected_physical(agg, out, info, rebuilt, "convert_var_to_effective_lindbladian:rejects-physical:on_para_eq_constraint=%s" % flag,
                                       "%s: %s" % (ctx, A.fmt_exc(L4)))
